@@ -25,9 +25,19 @@ pub const REVERSED: u8 = 8;
 pub const ALLHIGH: u8 = 9;
 /// `k / 1000`: keys of one thousand share a hash (many equal tree bins side by side; litmus only)
 pub const CLASS: u8 = 10;
-pub const ALL_MODES: [u8; 10] = [UNIFORM, IDENTITY, CONSTANT, SAMEBIN, HIGHBITS, MIXED, SPLITTING, MODGROUPS, REVERSED, ALLHIGH];
+/// every key hashes to u64::MAX (the last bin of every table, all hash bits set)
+pub const MAXCONST: u8 = 11;
+/// `!k`: all high bits set, keys spread over the bins from the top down
+pub const INVERTED: u8 = 12;
+/// `(k % 7) << 60 | (k / 7) << 32`: one bin; the top hash bit differs between keys
+pub const TOPBITS: u8 = 13;
+/// `(k & 1) << 6`: two hash values that differ only in the bit that splits a 64-bin table
+pub const TWOVAL6: u8 = 14;
+/// `(k & 1) << 7`: two hash values that differ only in the bit that splits a 128-bin table
+pub const TWOVAL7: u8 = 15;
+pub const ALL_MODES: [u8; 15] = [UNIFORM, IDENTITY, CONSTANT, SAMEBIN, HIGHBITS, MIXED, SPLITTING, MODGROUPS, REVERSED, ALLHIGH, MAXCONST, INVERTED, TOPBITS, TWOVAL6, TWOVAL7];
 /// the modes that crowd one bin
-pub const CROWDED_MODES: [u8; 7] = [CONSTANT, SAMEBIN, MIXED, SPLITTING, MODGROUPS, REVERSED, ALLHIGH];
+pub const CROWDED_MODES: [u8; 11] = [CONSTANT, SAMEBIN, MIXED, SPLITTING, MODGROUPS, REVERSED, ALLHIGH, MAXCONST, TOPBITS, TWOVAL6, TWOVAL7];
 
 pub fn mode_name(m: u8) -> &'static str {
     match m {
@@ -42,6 +52,11 @@ pub fn mode_name(m: u8) -> &'static str {
         REVERSED => "reversed",
         ALLHIGH => "allhigh",
         CLASS => "class",
+        MAXCONST => "maxconst",
+        INVERTED => "inverted",
+        TOPBITS => "topbits",
+        TWOVAL6 => "twoval6",
+        TWOVAL7 => "twoval7",
         _ => "?",
     }
 }
@@ -58,6 +73,11 @@ pub fn hash_of(mode: u8, k: u64) -> u64 {
         REVERSED => (0xffff - (k & 0xffff)) << 32,
         ALLHIGH => 0xC0 | (k << 32),
         CLASS => k / 1000,
+        MAXCONST => u64::MAX,
+        INVERTED => !k,
+        TOPBITS => ((k % 7) << 60) | ((k / 7) << 32),
+        TWOVAL6 => (k & 1) << 6,
+        TWOVAL7 => (k & 1) << 7,
         _ => ((k % 4) << 6) | ((k / 4) << 32),
     }
 }
